@@ -2,6 +2,7 @@ import N0Verif.Proofs.Tlv
 import N0Verif.Proofs.Fwf
 import N0Verif.Proofs.TlvGenEq
 import N0Verif.Proofs.TlvGenWriterEq
+import N0Verif.Proofs.FwfGenEq
 /-!
 # C16 — positional record codecs (TLV, fixed-width) round-trip, refuse, and terminate
 
@@ -339,6 +340,27 @@ theorem C16_generated_gen_eq (d : List (Str × Str)) (tl ll : Nat) (tp lp : Char
     Gen.TlvGenPy.generateTlv d tl ll [tp] [lp] = generateTlv tl ll tp lp d :=
   TlvGenWriterEq.generateTlv_eq d tl ll tp lp
 
+/-! ## fragments of `parse_fwf_row` / `generate_fwf_row` regenerated from the Python source equal the hand-written model
+
+`Gen/FwfPy.lean` is rewritten by `harness/translate_py_fwf.py` on every run: the statements of the column loop of
+`parse_fwf_row` that compute `column_value` from offset / width / till, and the statements of the column loop of
+`generate_fwf_row` that render the selected value into `rendered_row`.  Scope, as in the model: natural numbers (or
+`None`) for offsets, widths, sizes. -/
+
+/-- **generated slice computation = `colValue`**: which of offset / width / till decide, `till` defaulting to
+`offset + width`, the slice `incoming_row[offset:till]`; it never raises -/
+theorem C16_generated_fwf_slice_eq (row : Str) (c : PCol) :
+    Gen.FwfPy.ParseFwfRow.colValue row (c.offset.map Int.ofNat) (c.width.map Int.ofNat) (c.till.map Int.ofNat)
+      = .ok (colValue row c) :=
+  FwfGenEq.colValue_eq row c
+
+/-- **generated cell rendering = `place`**: `str()` of the value, `zfill` for `type == 'int'` else `ljust`, truncation
+to `size`, splice between `rendered_row[:offset]` and `rendered_row[till:]` (`ty` = `column_format.get('type')`) -/
+theorem C16_generated_gen_fwf_cell_eq (c : GCol) (v : Val) (r : Str) (ty : Option Str)
+    (h : c.isInt = decide (ty = some "int".toList)) :
+    Gen.FwfPy.GenerateFwfRow.place r v c.size c.offset c.till ty = place c v r :=
+  FwfGenEq.place_eq c v r ty h
+
 /-! Non-vacuity -/
 example : pyInt [] = none := by decide
 example : pyInt " +1_0\t".toList = some 10 := by decide
@@ -637,5 +659,19 @@ example : Gen.TlvGenPy.generateTlv [("A".toList, "x".toList), ("BB".toList, "hel
     = .ok "A   1xBB 11hello world".toList := by decide +kernel
 example : Gen.TlvGenPy.generateTlv [("A".toList, "x".toList), ("BBB".toList, "y".toList)] 2 3 [' '] ['0']
     = .error .AssertionError := by decide +kernel
+
+-- the generated fragments of the fixed-width codec: by width, by till (till wins), no position; int and text cells
+example : Gen.FwfPy.ParseFwfRow.colValue "-007.abc".toList (some 5) (some 3) none = .ok (some "abc".toList) := by
+  decide +kernel
+example : Gen.FwfPy.ParseFwfRow.colValue "-007.abc".toList (some 0) (some 2) (some 4) = .ok (some "-007".toList) := by
+  decide +kernel
+example : Gen.FwfPy.ParseFwfRow.colValue "-007.abc".toList none (some 3) (some 4) = .ok none := by decide +kernel
+example : Gen.FwfPy.ParseFwfRow.colValue "-007.abc".toList (some 1) none none = .ok none := by decide +kernel
+example : Gen.FwfPy.GenerateFwfRow.place "........".toList (.int (-7)) 4 0 4 (some "int".toList)
+    = .ok "-007....".toList := by decide +kernel
+example : Gen.FwfPy.GenerateFwfRow.place "........".toList (.str "abcdef".toList) 3 5 8 none
+    = .ok ".....abc".toList := by decide +kernel
+example : Gen.FwfPy.GenerateFwfRow.place "........".toList (.str "a".toList) 3 5 8 (some "str".toList)
+    = .ok ".....a  ".toList := by decide +kernel
 
 end N0.C16
